@@ -29,20 +29,36 @@ pub open spec fn pre(a: Seq<u8>, b: Seq<u8>) -> bool {
 /// `write_all` either appends the whole buffer or fails having appended a prefix of it
 /// (it loops over `write`, retrying on Interrupted); `flush` emits nothing new.
 /// `sunk()` is the ghost byte string the sink has accepted so far.
+/// `infallible()` marks sinks whose `write_all` cannot fail (std: `impl Write for Vec<u8>`).
 pub trait VWrite {
     spec fn sunk(&self) -> Seq<u8>;
+    spec fn infallible(&self) -> bool;
     fn write(&mut self, buf: &[u8]) -> (r: Result<usize, Error>)
         ensures match r {
             Ok(n) => n <= buf@.len() && final(self).sunk() == old(self).sunk() + buf@.subrange(0, n as int),
             Err(_) => final(self).sunk() == old(self).sunk(),
-        };
+        },
+        final(self).infallible() == old(self).infallible();
     fn write_all(&mut self, buf: &[u8]) -> (r: Result<(), Error>)
         ensures match r {
             Ok(()) => final(self).sunk() == old(self).sunk() + buf@,
             Err(_) => pre(old(self).sunk(), final(self).sunk()) && pre(final(self).sunk(), old(self).sunk() + buf@),
-        };
+        },
+        old(self).infallible() ==> r is Ok,
+        final(self).infallible() == old(self).infallible();
     fn flush(&mut self) -> (r: Result<(), Error>)
-        ensures final(self).sunk() == old(self).sunk();
+        ensures final(self).sunk() == old(self).sunk(), final(self).infallible() == old(self).infallible();
+}
+/// std: `impl Write for Vec<u8>` appends and never fails.
+impl VWrite for Vec<u8> {
+    open spec fn sunk(&self) -> Seq<u8> { self@ }
+    open spec fn infallible(&self) -> bool { true }
+    #[verifier::external_body]
+    fn write(&mut self, buf: &[u8]) -> (r: Result<usize, Error>) { unimplemented!() }
+    #[verifier::external_body]
+    fn write_all(&mut self, buf: &[u8]) -> (r: Result<(), Error>) { unimplemented!() }
+    #[verifier::external_body]
+    fn flush(&mut self) -> (r: Result<(), Error>) { unimplemented!() }
 }
 
 /// R14: `x.to_be_bytes()` is rewritten to `x.to_be_bytes_v()`; Verus cannot name the std
